@@ -156,7 +156,7 @@ var hiddenTable = []hiddenT{
 	{"new-weakset", func(g *mgen, id string) string { return "new WeakSet([$p(" + id + ", {})])" }},
 	{"new-date-coerce", func(g *mgen, id string) string { return "new Date({ valueOf() { $p(" + id + "); return 0 } })" }},
 	{"new-date-call", func(g *mgen, id string) string { return "new Date($p(" + id + ", 0))" }},
-	{"object-create-call", func(g *mgen, id string) string { return "Object.create($p(" + id + ", null))" }},
+	{"object-create-call", func(g *mgen, id string) string { return "Object.create($p(" + id + ", Object.prototype))" }},
 	{"object-create-second", func(g *mgen, id string) string {
 		return "Object.create({}, { get a() { return $p(" + id + ", {}) } })"
 	}},
@@ -425,7 +425,7 @@ func (g *mgen) stmt(f *mfile, sc *scope, allowExport bool) {
 			if r.Bool() {
 				add(o + ".p = " + g.hidden(f) + ";")
 			} else {
-				add(o + "[" + g.hidden(f) + "] = 1;")
+				add(o + "[(" + g.hidden(f) + ", \"k\")] = 1;")
 			}
 			g.note("wrap:assign-prop")
 		} else {
